@@ -53,6 +53,8 @@ def make_history(h, desc, vals, fns, rng, length):
         if not sw:
             continue
         kinds, args = rng.choice(sw)
+        if args and isinstance(args[0], str) and args[0].startswith("g:") and rng.random() < 0.4:
+            args = ["h:" + args[0][2:]] + list(args[1:])      # the same generated cell as a hand-made struct with its volume member left at 0
         steps.append((fn, kinds, args))
         if rng.random() < 0.5 and kinds:
             # burst of related calls: same function, one argument varied (exposes memoisation keyed on too few arguments)
@@ -92,6 +94,9 @@ def make_history(h, desc, vals, fns, rng, length):
     return steps
 
 
+COMMA = None      # dict(LOCPATH, name) of the comma-decimal locale built by run(), or None when localedef is unavailable
+
+
 def work(item):
     exe, src, rangesf, seed, nhist, length, sdir, tag = item
     st = Stats()
@@ -105,8 +110,12 @@ def work(item):
     for hi in range(nhist):
         steps = make_history(h, desc, vals, fns, rng, rng.randint(10, length))
         lines = [args if fn == "@private_array" else calls.line(fn, kinds, args) for fn, kinds, args in steps]
-        out_h, rc1, err1 = calls.run(exe, "history", lines, sdir, tag + "_h", extra_args=[rangesf])
-        out_f, rc2, err2 = calls.run(exe, "fresh", lines, sdir, tag + "_f")
+        # every second history runs under a locale whose decimal separator is a comma (lib/localetool.py), reference process included
+        lenv = dict(XRLCALL_LOCALE=COMMA["name"], LOCPATH=COMMA["LOCPATH"]) if (COMMA and hi % 2 == 1) else None
+        if lenv:
+            st.cls("histories_under_comma_locale")
+        out_h, rc1, err1 = calls.run(exe, "history", lines, sdir, tag + "_h", extra_args=[rangesf], env=lenv)
+        out_f, rc2, err2 = calls.run(exe, "fresh", lines, sdir, tag + "_f", env=lenv)
         hist_desc = [l.replace("\t", " ")[:100] for l in lines]
         if rc1 != 0 or not out_h or not out_h[-1].startswith("STATE") or len(out_h) != len(lines) + 1 or len(out_f) != len(lines):
             st.violation("history-crash", dict(history=hist_desc[:80]), "history executes", (err1 or err2)[-1500:])
@@ -134,7 +143,7 @@ def work(item):
         if not cwd_ok:
             st.violation("cwd-changed", dict(history=hist_desc[:60]), "cwd unchanged", None)
         if len(state) > 10 and state[10] != "1":
-            st.violation("process-environment-changed", dict(history=hist_desc[:60]), "floating-point rounding mode / trap mask and umask unchanged", None)
+            st.violation("process-environment-changed", dict(history=hist_desc[:60]), "floating-point rounding mode / trap mask, umask, the caller's strtok() walk and rand() sequence unchanged", None)
         if not errs_ok:
             st.violation("error-object-modified", dict(history=hist_desc[:60]), "error objects untouched by later calls", None)
         if sout != "-":
@@ -189,7 +198,7 @@ def work_orders(item):
         if state[3] != "1":
             st.violation("locale-changed", dict(functions=fns, mode=which), "locale unchanged", None)
         if len(state) > 10 and state[10] != "1":
-            st.violation("process-environment-changed", dict(functions=fns, mode=which), "floating-point rounding mode / trap mask and umask unchanged", None)
+            st.violation("process-environment-changed", dict(functions=fns, mode=which), "floating-point rounding mode / trap mask, umask, the caller's strtok() walk and rand() sequence unchanged", None)
         if state[5] != "1":
             st.violation("error-object-modified", dict(functions=fns, mode=which), "error objects untouched by later calls", None)
         if state[7] != "-":
@@ -220,6 +229,10 @@ def run(ctx):
             f.write("%x %x\n" % (a, s))
     ctx.extra["hashed_ranges"] = len(ranges)
     ctx.extra["hashed_bytes"] = sum(s for a, s, w in ranges)
+    global COMMA
+    import localetool
+    COMMA = localetool.make_comma_locale(ctx.sdir)
+    ctx.extra["comma_locale"] = bool(COMMA)
     items = [(exe, b["src"], rangesf, ctx.seed, nhist, length, ctx.sdir, "w%d" % k) for k in range(16)]
     ctx.stats.merge(common.pmap(work, items))
     fns = sorted(apigen.descriptors(b["src"])[1]) + ["add_compound_data"]
@@ -228,7 +241,7 @@ def run(ctx):
     ctx.stats.merge(common.pmap(work_orders, items2))
     ctx.rule = ("seeded histories (16 workers x %d histories, 10..%d steps + re-issued earlier steps) drawn from the C03 argument classes over every exported "
                 "function incl. failing calls, XRayInit, parser, NIST / nuclide / crystal lookups, _CP and refractive functions and the deprecated stubs, on "
-                "the Kissel-regenerated configuration under locale C.utf8; oracle: each step's encoded result == result of the same call in a fresh "
+                "the Kissel-regenerated configuration under locale C.utf8 and (every second history) under a generated locale with a decimal comma; oracle: each step's encoded result == result of the same call in a fresh "
                 "forked process; FNV-1a over %d library data/bss/rodata ranges (%d bytes) equal before/after; locale, cwd, floating-point environment, umask, stdout/stderr, kept error "
                 "objects unchanged; plus the C03 argument sweep of every function as one history in generation order and in shuffled order "
                 "(bit-identical answers, same hashes). non-trivial = history with >= 1 failing and >= 1 allocating call, distinct by history" % (nhist, length, len(ranges), ctx.extra["hashed_bytes"]))
